@@ -197,6 +197,43 @@ fn run_case(seed: u64, idx: u64, _tier: Tier, out: &mut CaseOut) {
             routes.push(("coloured(identity)", render_coloured(&cfg, &input, w)));
             out.evals += 1;
         }
+        // the crate's top-level convenience functions are the same routes under fixed
+        // configurations; parse() builds a tree without CSS and without do_decorate()
+        if i == 0 {
+            let (fr, frt, frr, pr) = convenience_routes(&cfg, &input, w);
+            out.evals += 4;
+            let checks: Vec<(&str, Outcome<String>, Outcome<String>)> = vec![
+                ("from_read", fr, render_string(&Cfg::plain(), &input, w)),
+                ("from_read_with_decorator(Trivial)", frt, render_string(&Cfg::trivial(), &input, w)),
+                (
+                    "from_read_rich",
+                    frr.map(|ls| format!("{:?}", ls)),
+                    render_lines(&Cfg::rich(), &input, w).map(|ls| format!("{:?}", ls)),
+                ),
+            ];
+            for (name, got, exp) in checks {
+                out.inc("routes_compared");
+                if !same(&exp, &got) {
+                    out.violate(
+                        format!("route-differs:{}", name.split('(').next().unwrap_or(name)),
+                        format!("{} gave {} but the corresponding Config route gave {}", name, short(&got), short(&exp)),
+                        witness(&input, w, &cfg, json!({"route": name})),
+                    );
+                    return;
+                }
+            }
+            if cfg.css.is_empty() && !cfg.use_doc_css && !cfg.decorate_on() {
+                out.inc("routes_compared");
+                if !same(&a, &pr) {
+                    out.violate(
+                        "route-differs:parse+render_to_string",
+                        format!("html2text::parse + render_to_string gave {} but string_from_read gave {}", short(&pr), short(&a)),
+                        witness(&input, w, &cfg, json!({"route": "parse"})),
+                    );
+                    return;
+                }
+            }
+        }
         out.digest_str(&format!("{}|{:?}", w, a));
         if let Outcome::Ok(ls) = &l {
             out.digest_str(&format!("{:?}", ls));
